@@ -166,7 +166,7 @@ fn leaf_tokens() -> Vec<Tok> {
     ]
 }
 
-const BOUNDS: &[(usize, Option<usize>)] = &[(0, None), (1, None), (2, Some(2)), (0, Some(1))];
+const BOUNDS: &[(usize, Option<usize>)] = &[(0, None), (1, None), (2, Some(2)), (0, Some(1)), (0, Some(0)), (2, Some(1))];
 
 struct Enum {
     /// concats[s] = all concatenations of size s (s >= 1)
